@@ -298,6 +298,13 @@ func oracleC09(f *sessionFam, w *World, res *Result) []Violation {
 			if i := strings.IndexAny(a, "/["); i >= 0 {
 				owner = a[:i]
 			}
+			// (a task the simulated client itself spawned - its reader of a raw connection - is the harness's, not the
+			// server's: tasks started by server code are labelled with the numeric site of their go statement)
+			if parts := strings.Split(strings.SplitN(a, "[", 2)[0], "/"); len(parts) > 1 {
+				if last := parts[len(parts)-1]; last != "" && (last[0] < '0' || last[0] > '9') {
+					continue
+				}
+			}
 			where := a
 			if i := strings.Index(a, "["); i >= 0 {
 				where = a[i:]
@@ -395,8 +402,18 @@ func GenLimits(prop string, seed uint64, thorough bool) *Scenario {
 	}
 	sizes := []int64{limit - 1, limit, limit + 1, limit + 2, 2 * limit, limit + 100000, limit + 1<<20}
 	x := ClientSpec{Name: "x1", Transport: "polling", EIO: 4, StartMs: g.pick(0, 100)}
-	mode := g.IntN(6)
-	if mode == 4 || mode == 5 {
+	mode := g.IntN(7)
+	if mode == 6 {
+		// an oversized data request that overlaps another data request of the same session (held in flight by a
+		// slow message listener): it is refused as an overlap, and refusing it must not cost more than the limit either
+		base := "EIO=4&transport=polling"
+		x.Raw = append(x.Raw, RawOp{Op: "http", Method: "GET", Query: base})
+		hdr := map[string]string{"Content-Type": "text/plain;charset=UTF-8"}
+		x.Raw = append(x.Raw, RawOp{Op: "http", Method: "POST", Query: base, UseSid: true, Hdr: hdr, Body: []byte("4"), Async: true, AtMs: 20})
+		sc.Reent = append(sc.Reent, ReentSpec{Event: "message", Call: "sleep", Ms: g.pick(30, 80), Sess: "x1", Nth: 1})
+		sz := sizes[2+g.IntN(len(sizes)-2)]
+		x.Raw = append(x.Raw, RawOp{Op: "http", Method: "POST", Query: base, UseSid: true, Hdr: hdr, BodyGen: sz, NoCL: g.p(0.5), AtMs: g.pick(5, 10, 20)})
+	} else if mode == 4 || mode == 5 {
 		// the limit must hold on a connection that joined the session as an upgrade candidate, too:
 		// polling handshake, candidate with the session's id, probe, upgrade, then frames around the limit
 		x.Raw = append(x.Raw, RawOp{Op: "http", Method: "GET", Query: "EIO=4&transport=polling"})
@@ -566,6 +583,18 @@ func oracleC10(f *sessionFam, w *World, res *Result) []Violation {
 		opened := w.evs(c.Name, "c-raw-ws-open", "c-raw-wt-open")
 		if over && len(opened) > 0 && (opened[0].N == 101 || opened[0].N == 200) && len(w.evs(c.Name, "c-raw-stream-end")) == 0 {
 			l.add("oversized-frame-ends-connection", "", fmt.Sprintf("%s sent a frame above the maximum payload (%d) but its connection was still open at the end", c.Name, limit))
+		} else if over && len(opened) > 0 && opened[0].N == 101 {
+			// "terminates that connection": the server hangs up - a close frame alone is a request that a hostile
+			// peer ignores, keeping the connection (and the server's descriptor) for as long as it likes
+			for _, r := range w.resps {
+				if r.Client != c.Name || !r.Hijacked {
+					continue
+				}
+				if ce, ok := r.conn.(*connEnd); ok && (!ce.isClosed || ce.closedAt > f.endAt) {
+					l.add("oversized-frame-ends-connection", "server-never-hung-up", fmt.Sprintf("%s sent a WebSocket message above the maximum payload (%d); the session was closed but the server had not closed the connection by the end of the run", c.Name, limit))
+					break
+				}
+			}
 		}
 	}
 	// other sessions unaffected
